@@ -22,7 +22,14 @@ def main():
         sys.exit(rc)
     if not ctx.ensure_static():
         ctx.obligation("P", "static build of /verif/coq", False, "\n".join(ctx.notes))
-    rc = mod.run(ctx)
+    try:
+        rc = mod.run(ctx)
+    except Exception:            # a crash of the harness is never a silent pass nor a bare traceback:
+        import traceback         # the run did not establish the property -> broken obligation, reported as such
+        tb = traceback.format_exc()
+        sys.stderr.write(tb)
+        ctx.obligation("K", "harness run of %s completed" % a.pid, False, tb)
+        rc = ctx.finish(assumptions=["the harness raised an exception before finishing: %s" % tb.strip().splitlines()[-1]])
     print("%s tier=%s seed=%d obligations=%d discharged=%d cases=%d violations=%d wall=%.1fs" % (
         a.pid, tier, seed, len(ctx.obligations), sum(1 for o in ctx.obligations if o[2]),
         ctx.cases_total, len(ctx.violations), __import__("time").time() - ctx.t0))
